@@ -11,7 +11,7 @@ use std::sync::atomic::Ordering;
 
 /// Public (re-exported as `fibre::verif`) control surface for the harness.
 pub mod verif {
-  use std::sync::atomic::{AtomicUsize, Ordering};
+  use std::sync::atomic::{AtomicPtr, Ordering};
 
   /// What kind of synchronisation step is about to happen.
   #[derive(Clone, Copy, Debug, PartialEq, Eq, Hash)]
@@ -38,26 +38,28 @@ pub mod verif {
   pub type Hook = fn(Kind);
   pub type WeakFail = fn() -> bool;
 
-  static HOOK: AtomicUsize = AtomicUsize::new(0);
-  static WEAK_FAIL: AtomicUsize = AtomicUsize::new(0);
+  // Function pointers are kept as pointers (not integers) so that they keep their provenance
+  // under Miri.
+  static HOOK: AtomicPtr<()> = AtomicPtr::new(std::ptr::null_mut());
+  static WEAK_FAIL: AtomicPtr<()> = AtomicPtr::new(std::ptr::null_mut());
 
   /// Installs (or clears) the function called before every instrumented step.
   pub fn install(hook: Option<Hook>) {
-    HOOK.store(hook.map(|h| h as usize).unwrap_or(0), Ordering::SeqCst);
+    HOOK.store(hook.map(|h| h as *mut ()).unwrap_or(std::ptr::null_mut()), Ordering::SeqCst);
   }
 
   /// Installs (or clears) the oracle deciding whether a `compare_exchange_weak`
   /// fails spuriously.
   pub fn install_weak_fail(f: Option<WeakFail>) {
-    WEAK_FAIL.store(f.map(|h| h as usize).unwrap_or(0), Ordering::SeqCst);
+    WEAK_FAIL.store(f.map(|h| h as *mut ()).unwrap_or(std::ptr::null_mut()), Ordering::SeqCst);
   }
 
   #[inline]
   pub fn point(kind: Kind) {
     let h = HOOK.load(Ordering::Relaxed);
-    if h != 0 {
+    if !h.is_null() {
       // SAFETY: only `install` writes HOOK, always from a valid `fn(Kind)`.
-      let f: Hook = unsafe { std::mem::transmute::<usize, Hook>(h) };
+      let f: Hook = unsafe { std::mem::transmute::<*mut (), Hook>(h) };
       f(kind);
     }
   }
@@ -65,9 +67,9 @@ pub mod verif {
   #[inline]
   pub(crate) fn weak_should_fail() -> bool {
     let h = WEAK_FAIL.load(Ordering::Relaxed);
-    if h != 0 {
+    if !h.is_null() {
       // SAFETY: only `install_weak_fail` writes WEAK_FAIL.
-      let f: WeakFail = unsafe { std::mem::transmute::<usize, WeakFail>(h) };
+      let f: WeakFail = unsafe { std::mem::transmute::<*mut (), WeakFail>(h) };
       f()
     } else {
       false
